@@ -779,24 +779,34 @@ def edge_paths(edges, init_key):
 
 # ------------------------------------------------------------------ validation
 
-def validate(histories, scratch, prop, chunk=60):
-    """Run CircuitAbs over the histories; returns (violations for ``prop``, drift records, states, transitions)."""
-    cases = [{'drift': h['drift'], 'snaps': h['snaps'], 'steps': [
-        {'call': s['call'], 'b': s['b'], 'a': s['a'], 'exc': s['exc'], 'views': s['views']} for s in h['steps']]} for h in histories]
-    verdicts, states, trans, results = common.batch_validate(SPEC_ABS, CFG_ABS, cases, scratch, chunk=chunk, timeout=3000, env={'PROP': prop})
-    drifts = []
-    base = 0
-    for i, r in enumerate(results):
-        for v in r.prints:
+def validate(histories, scratch, prop, chunk=None):
+    """Run CircuitAbs over the histories; returns (violations for ``prop``, drift records, states, transitions).
+    Histories are grouped so that one TLC run judges about 2500 steps (short edge replays by the thousand, long
+    random histories by the dozen)."""
+    viol, drifts = [], []
+    states = trans = 0
+    groups, cur, n = [], [], 0
+    for i, h in enumerate(histories):
+        cur.append(i)
+        n += max(1, len(h['steps']))
+        if n >= 2500 or (chunk and len(cur) >= chunk):
+            groups.append(cur)
+            cur, n = [], 0
+    if cur:
+        groups.append(cur)
+    for g in groups:
+        cases = [{'drift': histories[i]['drift'], 'snaps': histories[i]['snaps'], 'steps': [
+            {'call': s['call'], 'b': s['b'], 'a': s['a'], 'exc': s['exc'], 'views': s['views']} for s in histories[i]['steps']]} for i in g]
+        verdicts, st, tr, results = common.batch_validate(SPEC_ABS, CFG_ABS, cases, scratch, chunk=len(cases) + 1, timeout=3000, env={'PROP': prop})
+        states += st
+        trans += tr
+        for v in results[0].prints:
             if v and v[0] == 'DRIFT':
-                drifts.append((i * chunk + v[1] - 1, v[2], v[3]))
-    viol = []
-    for idx, step, clause, extra in verdicts:
-        if not extra or extra[0] != prop:
-            continue
-        h = histories[idx]
-        s = h['steps'][step - 1]
-        viol.append(make_violation(prop, clause, h, step - 1))
+                drifts.append((g[v[1] - 1], v[2], v[3]))
+        for idx, step, clause, extra in verdicts:
+            if not extra or extra[0] != prop:
+                continue
+            viol.append(make_violation(prop, clause, histories[g[idx]], step - 1))
     return viol, drifts, states, trans
 
 
@@ -942,6 +952,7 @@ def run_check(ctx, prop):
         return out
     rng = random.Random(ctx.seed)
     quick = ctx.quick
+    scale = float(os.environ.get('VERIF_CIRC_SCALE') or 1.0)       # shrink the sampled parts (used for mutation demos)
     t0 = time.time()
     states = trans = 0
     tlc_runs = []
@@ -950,12 +961,12 @@ def run_check(ctx, prop):
     cov = {}
     hist = []
     edges_total = edges_replayed = 0
-    plan = [('2 qudits, full alphabet except qudit calls, <= 2 live operations', CFG_EMIT, True, 4000 if quick else 60000),
-            ('1-3 qudits, full alphabet with qudit calls, 1 live operation', CFG_EMIT_Q, True, 3000 if quick else 60000),
+    plan = [('2 qudits, full alphabet except qudit calls, <= 2 live operations', CFG_EMIT, True, 4000 if quick else 40000),
+            ('1-3 qudits, full alphabet with qudit calls, 1 live operation', CFG_EMIT_Q, True, 3000 if quick else 40000),
             ('3 qudits, core alphabet, operations of width <= 3, <= 2 live operations', CFG_Q3, False, 0)]
     if not quick:
         plan.append(('2-3 qudits, full alphabet, <= 2 live operations', CFG_FULL, False, 0))
-        plan.append(('3 qudits, core alphabet, width <= 3, <= 3 live operations', dict(CFG_Q3, MaxLive=3, MaxDepth=4, Acts=CORE_ACTS[:9]), False, 0))
+        plan.append(('3 qudits, core alphabet, width <= 3, <= 2 live operations, one level deeper', dict(CFG_Q3, MaxDepth=4), False, 0))
     for name, cfg, emit, limit in plan:
         r, edges = model_check(cfg, ctx.scratch, emit=emit, timeout=6000)
         states += r.distinct
@@ -968,7 +979,7 @@ def run_check(ctx, prop):
         if emit:
             if len(edges) < 100:
                 raise MachineryError('CircuitRef emitted only %d edges' % len(edges))
-            jobs, n = replay_jobs(edges, cfg, rng, limit)
+            jobs, n = replay_jobs(edges, cfg, rng, int(limit * scale))
             edges_total += n
             edges_replayed += len(jobs)
             per = max(1, len(jobs) // 56)
@@ -983,7 +994,8 @@ def run_check(ctx, prop):
     n_edge_hist = len(hist)
     # 3. long seeded random histories over the whole alphabet (half of them without renumber_qudits, whose
     #    known defect ends a history early and masks rarer findings)
-    nh, nc = (90, 120) if quick else (1500, 300)
+    nh, nc = (90, 120) if quick else (800, 300)
+    nh = max(4, int(nh * scale))
     no_ren = [a for a in ALL_CALLS if a != 'renumber']
     jobs = [(ctx.seed * 100003 + i, rng.randint(nc // 3, nc), ALL_CALLS if i % 2 else no_ren, 7) for i in range(nh)]
     rand = parallel(_rand_worker, jobs)
